@@ -34,8 +34,24 @@ def status_of(e):
 def observe_deref(p, target, stream):
     try:
         v = p.dereference()
-        v2 = p.dereference()
         pv = A.project(v, deref_type(target))
+        # "returns the same value on every later dereference": also when the bytes at the target have changed in the meantime
+        # (the pointer was dereferenced once - what it points to is what it saw then; falsy values such as 0 included)
+        raw = getattr(stream, "_b", stream)
+        saved = raw.getvalue() if raw is not None and hasattr(raw, "getvalue") else None
+        if saved is not None:
+            keep = raw.tell()
+            raw.seek(0)
+            raw.write(bytes((b ^ 0xA5) for b in saved))
+            raw.seek(keep)
+        try:
+            v2 = p.dereference()
+        finally:
+            if saved is not None:
+                keep = raw.tell()
+                raw.seek(0)
+                raw.write(saved)
+                raw.seek(keep)
         same = v2 is v or A.project(v2, deref_type(target)) == pv
         return {"status": "ok", "v": pv, "again_same": bool(same), "pos": stream.tell() if stream else 0}
     except Exception as e:  # noqa: BLE001
